@@ -7,6 +7,7 @@ package neovm
 // The observation is the fault flag and the top of the evaluation stack after ExecuteOp.
 
 import (
+	"fmt"
 	"math/big"
 	"testing"
 
@@ -126,5 +127,126 @@ func TestVerifIntOps(t *testing.T) {
 		for _, rep := range []string{"native", "bytes"} {
 			out.Emit(ioRun(row, rep))
 		}
+	}
+}
+
+// ---------------------------------------------------------------------------------------------------------
+// "operands are values" rows (NeoVMInt!Kept): every operand is first PRODUCED BY AN ARITHMETIC OPCODE (x 0 ADD, so that a
+// value outside int64 is a big.Int-stored stack item), a second reference to it is kept (DUP below the operands / on the
+// alt stack / as an array element), then the opcode runs on the real Executor; the kept references are read afterwards.
+
+type iaRow struct {
+	Id   int      `json:"id"`
+	Op   string   `json:"op"`
+	Arg  []string `json:"arg"`
+	Keep string   `json:"keep"` // dup | alt | arr
+}
+
+type iaObs struct {
+	Id    int      `json:"id"`
+	Built bool     `json:"built"`
+	Fault bool     `json:"fault"`
+	Err   string   `json:"err,omitempty"`
+	Val   string   `json:"val,omitempty"`
+	Kept  []string `json:"kept"`
+	Panic string   `json:"panic,omitempty"`
+}
+
+func iaMust(state VMState, err error) {
+	if err != nil || state == FAULT {
+		panic(fmt.Sprintf("set-up opcode failed: %v", err))
+	}
+}
+
+func iaRun(row iaRow) (obs iaObs) {
+	obs = iaObs{Id: row.Id}
+	defer func() {
+		if r := recover(); r != nil {
+			obs.Panic = fmt.Sprint(r)
+		}
+	}()
+	op := ioOpcodes[row.Op]
+	exec := NewExecutor([]byte{byte(op)}, VmFeatureFlag{})
+	do := func(o OpCode) { iaMust(exec.ExecuteOp(o, exec.Context)) }
+	n := len(row.Arg)
+	// 1. produce the operands with an arithmetic opcode and keep a second reference to each
+	for _, a := range row.Arg {
+		v, ok := ioBuild("native", a)
+		if !ok {
+			return
+		}
+		vhMust(exec.EvalStack.Push(v))
+		vhMust(exec.EvalStack.Push(types.VmValueFromInt64(0)))
+		do(ADD)
+		do(DUP)
+		switch row.Keep {
+		case "alt":
+			do(TOALTSTACK)
+		case "arr":
+			vhMust(exec.EvalStack.Push(types.VmValueFromInt64(1)))
+			do(PACK)
+			do(TOALTSTACK) // the array that holds the second reference waits on the alt stack
+		}
+	}
+	if row.Keep == "dup" && n == 2 { // [x1 x1' x2 x2'] -> [x1 x2 x1' x2']
+		do(ROT)
+		do(SWAP)
+	}
+	obs.Built = true
+	// 2. the opcode under test
+	state, err := exec.ExecuteOp(op, exec.Context)
+	if err != nil || state == FAULT {
+		obs.Fault = true
+		if err != nil {
+			obs.Err = err.Error()
+		}
+	} else {
+		top, err := exec.EvalStack.Peek(0)
+		vhMust(err)
+		bi, err := top.AsBigInt()
+		vhMust(err)
+		obs.Val = bi.String()
+		_, _ = exec.EvalStack.Pop()
+	}
+	// 3. read the kept references (operand order)
+	kept := make([]string, n)
+	for i := n - 1; i >= 0; i-- {
+		var v types.VmValue
+		switch row.Keep {
+		case "dup":
+			if obs.Fault {
+				// a faulting opcode may have popped some operands; the kept copies are the n lowest items
+				v, err = exec.EvalStack.Peek(int64(exec.EvalStack.Count() - 1 - i))
+			} else {
+				v, err = exec.EvalStack.Peek(int64(n - 1 - i))
+			}
+			vhMust(err)
+		case "alt":
+			v, err = exec.AltStack.Pop()
+			vhMust(err)
+		case "arr":
+			av, err := exec.AltStack.Pop()
+			vhMust(err)
+			arr, err := av.AsArrayValue()
+			vhMust(err)
+			v = arr.Data[0]
+		}
+		bi, err := v.AsBigInt()
+		vhMust(err)
+		kept[i] = bi.String()
+	}
+	obs.Kept = kept
+	return
+}
+
+func TestVerifIntAlias(t *testing.T) {
+	var in struct {
+		Rows []iaRow `json:"rows"`
+	}
+	vhIn(&in)
+	out := vhOpenOut()
+	defer out.Close()
+	for _, row := range in.Rows {
+		out.Emit(iaRun(row))
 	}
 }
